@@ -280,7 +280,47 @@ def clean_model(wd, sd, h1files, quick):
                             "first_disagreements": [b for c in conf for b in c["bad"]][:2]}}
 
 
-def engine_check(pid, fams, tier_, maxruns, level_note="", props=None, extra_cov=None, level="model_checking", h2=None, design=None, impl=False, stream=False, cleanmodel=False):
+def cycle_model(wd, sd, h1files, quick):
+    """C17, design level: spec/Cycle.tla (marks, stack and printed path of the dependency scan) model-checked against the
+    graph-theoretic reference for every graph of the `cyc` family x every target; then the model's path against the path
+    the real scan printed for the first invocation of every recorded execution (CycleTrace.tla)."""
+    gp = export_family("cyc", 6 if quick else 60, 1, sd)
+    seen, graphs = set(), []
+    for line in open(gp):
+        if not line.strip():
+            continue
+        j = json.loads(line)
+        key = json.dumps(j["stmts"], sort_keys=True)
+        if key not in seen:
+            seen.add(key)
+            graphs.append(json.dumps({"srcs": j["srcs"], "pools": j.get("pools", []), "stmts": j["stmts"]}) + "\n")
+    graphs = graphs[:150] if quick else graphs
+    gfile = os.path.join(wd, "cycgraphs.ndjson")
+    open(gfile, "w").write("".join(graphs))
+    cfg = os.path.join(wd, "mc_cycle.cfg")
+    open(cfg, "w").write("SPECIFICATION Spec\nINVARIANT Exact\nINVARIANT PathOK\nCHECK_DEADLOCK FALSE\n")
+    r = run_tlc("Cycle.tla", cfg, env={"GRAPHS": gfile}, workers=NCPU, extra=["-noGenerateSpecTE"], timeout=240 if quick else 3000, xmx="8g")
+    finished = "Model checking completed" in r["out"]
+    if "is violated" in r["out"] or ("Error:" in r["out"] and not finished and r["rc"] != 124):
+        raise Broken("design-level model Cycle.tla: %s\n%s" % (r["error"], r["out"][-3000:]))
+    def go(pair):
+        sp, tp = pair
+        vp = tp + ".cycle"
+        rr = run_tlc("CycleTrace.tla", "CycleTrace.cfg", env={"TRACE": tp, "VIOL": vp, "GRAPHS": gfile}, workers=1, timeout=3000, extra=["-noGenerateSpecTE"])
+        if rr["error"] or not os.path.exists(vp):
+            return {"checked": 0, "agree": 0, "cyclic": 0, "bad": [], "error": (rr["error"] or "no result") + ": " + rr["out"][-800:]}
+        d = json.loads(open(vp).read().split("\n")[0])
+        return {"checked": d["stats"]["checked"], "agree": d["stats"]["agree"], "cyclic": d["stats"]["cyclic"], "bad": d["bad"][:2]}
+    conf = parallel(go, h1files)
+    errs = [c["error"] for c in conf if c.get("error")]
+    if errs:
+        raise Broken("Cycle.tla conformance failed to run: %s" % errs[0][:1500])
+    return {"states": r["states"], "distinct": r["distinct"], "finished": finished, "graphs": len(graphs), "invariants": ["Exact", "PathOK"],
+            "conformance": {"first_invocations_replayed": sum(c["checked"] for c in conf), "of_them_cyclic": sum(c["cyclic"] for c in conf),
+                            "agreeing": sum(c["agree"] for c in conf), "first_disagreements": [b for c in conf for b in c["bad"]][:2]}}
+
+
+def engine_check(pid, fams, tier_, maxruns, level_note="", props=None, extra_cov=None, level="model_checking", h2=None, design=None, impl=False, stream=False, cleanmodel=False, cyclemodel=False):
     """Runs the pipeline and reports for property pid.  Returns exit code."""
     t0 = time.time()
     sd = seed()
@@ -315,6 +355,8 @@ def engine_check(pid, fams, tier_, maxruns, level_note="", props=None, extra_cov
         dres = design_mc(wd, sd, **design) if design else None
         ires = impl_conformance(h1files, wd) if impl else None
         cres = clean_model(wd, sd, h1files, tier_ == "quick") if cleanmodel else None
+        if cyclemodel:
+            cres = cycle_model(wd, sd, h1files, tier_ == "quick")
         if ires and (ires["errors"] or ires["dynamic"]["errors"]):
             # the conformance replay itself did not run to the end: a broken check, not a disagreement
             raise Broken("Impl conformance (ImplTrace / ImplDynTrace) failed to run: %s" % str((ires["errors"] + ires["dynamic"]["errors"])[0])[:1500])
